@@ -3,7 +3,7 @@
 + neighbours), sequentially, restoring /repo after each; results in build/seedtests/<id>.json."""
 import json, os, re, subprocess, sys, time
 VERIF = os.path.dirname(os.path.dirname(os.path.abspath(__file__)))
-SRC = '/tmp/seeded-out'
+SRC = os.path.join(VERIF, 'seeded')
 OUT = os.path.join(VERIF, 'build', 'seedtests')
 NEIGH = {'C01': ['C05'], 'C02': ['C11'], 'C03': ['C01'], 'C04': ['C05'], 'C05': ['C01'], 'C06': ['C01'], 'C07': ['C01'], 'C08': ['C09'],
          'C09': ['C08'], 'C10': ['C08'], 'C11': ['C02'], 'C12': ['C07'], 'C13': ['C09'], 'C14': ['C09'], 'C15': ['C11'], 'C16': ['C04'],
@@ -19,7 +19,10 @@ for i in ids:
     outp = os.path.join(OUT, i + '.json')
     if os.path.exists(outp) or not os.path.exists(os.path.join(d, 'patch.diff')):
         continue
-    prop = i[:3]
+    try:
+        prop = json.load(open(os.path.join(d, 'meta.json')))['property']
+    except Exception:
+        prop = i[:3]
     props = [prop] + NEIGH.get(prop, [])
     if sh('git -C /repo status --porcelain --untracked-files=no').stdout.strip():
         print('refusing: /repo dirty'); sys.exit(2)
